@@ -34,6 +34,7 @@ import (
 	"github.com/nuetzliches/hookaido/internal/queue"
 	"github.com/nuetzliches/hookaido/internal/router"
 	"github.com/nuetzliches/hookaido/internal/secrets"
+	"github.com/nuetzliches/hookaido/internal/verifhook"
 	"github.com/nuetzliches/hookaido/internal/workerapi"
 	workerapipb "github.com/nuetzliches/hookaido/internal/workerapi/proto"
 	"google.golang.org/grpc"
@@ -1131,7 +1132,9 @@ func reloadConfig(path string, running config.Compiled, state *runtimeState, log
 		logger.Error("config_reload_failed", slog.Any("err", err), slog.String("trigger", trigger))
 		return running, false
 	}
+	verifhook.Point("reload.after_load_auth")
 	state.updateAll(compiled)
+	verifhook.Point("reload.after_update_all")
 
 	logger.Info("config_reloaded_ok", slog.String("trigger", trigger))
 	return compiled, true
@@ -1675,22 +1678,28 @@ func writeFileAtomic(path string, data []byte) error {
 		}
 	}()
 
+	verifhook.Point("app.wfa.created")
 	if err := tmp.Chmod(mode); err != nil {
 		return err
 	}
+	verifhook.Point("app.wfa.chmod")
 	if _, err := tmp.Write(data); err != nil {
 		return err
 	}
+	verifhook.Point("app.wfa.written")
 	if err := tmp.Sync(); err != nil {
 		return err
 	}
+	verifhook.Point("app.wfa.synced")
 	if err := tmp.Close(); err != nil {
 		return err
 	}
+	verifhook.Point("app.wfa.closed")
 	if err := os.Rename(tmpPath, path); err != nil {
 		return err
 	}
 	keepTemp = true
+	verifhook.Point("app.wfa.renamed")
 
 	return syncDir(dir)
 }
